@@ -34,7 +34,8 @@ THEOREMS = [
 NOTES = [
     "the theorems hold for EVERY schedule of the abstract two-thread machine (each list operation of the real "
     "handlers is one atomic step); what ties the machine to the code: three protocol facts translated from the "
-    "source, and real runs under schedules forced through the guarded hooks at 7 coarse placements of the student "
+    "source, one observed on the imported module (terminate() of an ended thread), and real runs under schedules "
+    "forced through the guarded hooks at 8 coarse placements of the student "
     "thread's finalization (finer interleavings cannot be forced on CPython and are covered by the theorems only)",
     "assumed, not modelled: the student thread's _execute prologue completes before the time limit; preemption "
     "inside C code; a student loop that never reaches a bytecode boundary other than by blocking; delivery of the "
@@ -67,7 +68,7 @@ def all_scenarios(limit):
         for pos in POSITIONS:
             out.append({"program": p, "position": pos, "limit": limit})
     for p in GATED:
-        for pos in ("claim_first", "lose_race"):
+        for pos in ("claim_first", "lose_race", "dies_at_claim"):
             out.append({"program": p, "position": pos, "limit": limit})
     for p in NEVER:
         out.append({"program": p, "position": "free", "limit": limit})
@@ -181,6 +182,11 @@ def schedule(sc, cfg):
             if cfg["claim"]:
                 return pre + "g" + choice + g_until("n0", 1) + "w" + rest, True
             return None
+        if pos == "dies_at_claim":
+            # timer, the grader decides to give up (wins the claim), the code ends and the thread is gone, terminate()
+            if cfg["claim"] and cfg["tolerant"]:
+                return pre + "gg" + choice + "w" + rest, True
+            return None            # the AssertionError leaves run(): the oracle's business, no E2 in the model
     if prog in NEVER:
         return pre + g_until("hStop") + "w" + rest, True
     return None
@@ -213,7 +219,7 @@ def real_view(obs):
         "out1": f["e1_output"], "out2": f["e2_output"], "raw": f["raw"],
         "fresh_id": (f["e2_id"] is not None and f["e1_id"] is not None and f["e2_id"] == f["e1_id"] + 1),
         "next": f["next_id"], "tdead": not f["student_alive"],
-        "e2escaped": f["e2_escaped"] is not None,
+        "e2escaped": f["e2_escaped"] is not None, "e1escaped": obs["escaped"] is not None,
     }
     if obs["scenario"]["program"] in NEVER:
         # whether a thread that the model treats as running for ever was already past its first statements when
@@ -232,7 +238,7 @@ def model_view(ans):
         "patches": int(kv["patches"]), "stdouts": int(kv["stdouts"]), "sysreal": kv["sysreal"] == "1",
         "out1": abstract_toks(kv["out1"]), "out2": abstract_toks(kv["out2"]), "raw": abstract_toks(kv["raw"]),
         "fresh_id": int(kv["id2"]) == int(kv["id1"]) + 1, "next": int(kv["next"]), "tdead": kv["tdead"] == "1",
-        "e2escaped": kv["e2escaped"] == "1", "_done": kv["done"] == "1",
+        "e2escaped": kv["e2escaped"] == "1", "e1escaped": kv["e1escaped"] == "1", "_done": kv["done"] == "1",
     }
 
 
@@ -254,7 +260,8 @@ def correspond(rng, tier, driver):
     res.rule = ("real = run(threaded=True) of 9 student programs (busy loop, printing loop, loop swallowing the "
                 "termination [then finishing / raising / printing], blocking on a lock, code ending exactly at the "
                 "limit) under the student thread's finalization FORCED (hooks) before the grader's handler / after "
-                "the call returned / during the next run / after it / claiming first / losing the claim race, each "
+                "the call returned / during the next run / after it / claiming first / losing the claim race / ending between the grader's decision and "
+                "terminate(), each "
                 "followed by a next run(); model = Pedal.Timeout.run on the corresponding schedule; compared: "
                 "exception at return and before the next run, stack depths at return and at the end, sys.stdout "
                 "restored, runtime feedback kinds, both executions' recorded output (abstracted to who wrote it), "
@@ -262,7 +269,8 @@ def correspond(rng, tier, driver):
                 "thread is placed after the grader's handler")
     ans = driver.ask(["cfg"])[0]
     _, kv = parse_kv(ans)
-    cfg = {"claim": kv["claim"] == "1", "pops": kv["pops"] == "1", "bumps": kv["bumps"] == "1"}
+    cfg = {"claim": kv["claim"] == "1", "pops": kv["pops"] == "1", "bumps": kv["bumps"] == "1",
+           "tolerant": kv["tolerant"] == "1"}
     scs = scenario_list(rng, tier)
     obs = run_real(scs)
     res.observations = obs
@@ -280,7 +288,7 @@ def correspond(rng, tier, driver):
         if o.get("stuck"):
             res.count("skipped:grader-stuck (judged by the oracle)")
             continue
-        if not o.get("have_hooks") and sc["position"] != "free":
+        if sc["position"] != "free" and (not o.get("have_hooks") or o.get("no_hook")):
             res.count("skipped:no-hooks-in-tree")
             continue
         sch = schedule(sc, cfg)
@@ -296,7 +304,7 @@ def correspond(rng, tier, driver):
         res.evaluations += 1
         res.count("program:" + sc["program"])
         res.count("position:" + sc["position"])
-        if sc["position"] in ("after_return", "during_next", "after_next", "lose_race"):
+        if sc["position"] in ("after_return", "during_next", "after_next", "lose_race", "dies_at_claim"):
             res.nontrivial.add(json.dumps(sc, sort_keys=True))
         diffs = ["bad-request"] if model is None else [k for k in real if real[k] != model[k]]
         if model is not None and not model["_done"]:
@@ -327,7 +335,7 @@ def judge(o):
 
     def bad(claim, what):
         out.append(({"claim": claim, "survives_and_prints": surv_print}, "%s/%s: %s" % (sc["program"], sc["position"], what)))
-    if o.get("crashed") or inconclusive(o):
+    if o.get("crashed") or inconclusive(o) or o.get("no_hook"):
         return out
     if o.get("stuck"):
         k = o["stuck"]
